@@ -76,6 +76,9 @@ class Source:
             elif it.get("k") == "enum":
                 it["file"] = file
                 self.enums.setdefault(it["name"], it)
+            elif it.get("k") == "const":
+                it["file"] = file
+                self.consts.setdefault(it["name"], it)
 
     def _collect(self, file, items):
         for it in items:
@@ -542,3 +545,31 @@ def walk_block_deep(S, fn, depth=0, seen=None):
             for g in S.fns:
                 if g.name == callee and g.body is not None and g.file == fn.file and is_new_helper(g):
                     yield from walk_block_deep(S, g, depth + 1, seen)
+
+
+def literal_map(S, fn):
+    """{key literal: result literal} of a function that maps string literals to string literals, whether it is written as a `match` on the
+    string, an if/else-if chain of `==` / matches! / CONST.contains(&x) tests, or a mixture"""
+    got = {}
+    for e in walk_block(fn.body):
+        if e.get("k") == "match":
+            for arm in e["arms"]:
+                pats = arm["pat"]["cases"] if arm["pat"].get("k") == "or" else [arm["pat"]]
+                tgt = None
+                for x in walk(arm["body"]):
+                    if x.get("k") == "lit" and x["lit"]["t"] == "str":
+                        tgt = x["lit"]["v"]
+                for p in pats:
+                    if p.get("k") == "lit" and p["lit"].get("t") == "str":
+                        got.setdefault(p["lit"]["v"], tgt)
+        if e.get("k") == "if" and e["cond"].get("k") != "letcond":
+            g = literal_set_guard(S, e["cond"])
+            if g is not None:
+                tgt = None
+                for x in walk_block(e["then"]):
+                    if x.get("k") == "lit" and x["lit"]["t"] == "str":
+                        tgt = x["lit"]["v"]
+                        break
+                for k in g[1]:
+                    got.setdefault(k, tgt)
+    return got
